@@ -441,11 +441,7 @@ func c17GitLabScenario(r *rand.Rand, rep *runReport, cw *caseWriter, cid int, k 
 	for _, p := range pend {
 		if p.Path == path && p.Line > 0 && !covered(p) {
 			what := fmt.Sprintf("GitLab: after %d runs with unchanged results and maxComments=%d a problem on %s:%d still has no comment", len(sc.Rounds), budget, p.Path, p.Line)
-			if outside > 0 {
-				rep.failKnown(fmt.Sprintf("srv%d", k), what+" (comments skipped for a path outside the merge request are counted against the budget)", sc, "C17-skipped-comments-consume-budget")
-			} else {
-				rep.fail(fmt.Sprintf("srv%d", k), what, sc)
-			}
+			rep.fail(fmt.Sprintf("srv%d", k), what, sc)
 			return
 		}
 	}
@@ -504,11 +500,7 @@ func c17GitHubScenario(r *rand.Rand, rep *runReport, cw *caseWriter, cid int, k 
 	for _, p := range pend {
 		if p.Path == path && hasDiffLines && !covered(p) {
 			what := fmt.Sprintf("GitHub: after %d runs with unchanged results and maxComments=%d a problem on %s:%d still has no comment", len(sc.Rounds), budget, p.Path, p.Line)
-			if outside > 0 {
-				rep.failKnown(fmt.Sprintf("srv%d", k), what+" (comments skipped for a path outside the pull request are counted against the budget)", sc, "C17-skipped-comments-consume-budget")
-			} else {
-				rep.fail(fmt.Sprintf("srv%d", k), what, sc)
-			}
+			rep.fail(fmt.Sprintf("srv%d", k), what, sc)
 			return
 		}
 	}
